@@ -121,6 +121,9 @@ func searchFieldId(p *binary.BinaryProtocol, id proto.FieldNumber, messageLen in
 // packed: if idx is found, return the element[V] value start position, otherwise return the end of p.Buf
 // unpacked: if idx is found, return the element[TLV] tag position, otherwise return the end of p.Buf
 func searchIndex(p *binary.BinaryProtocol, idx int, elementWireType proto.WireType, isPacked bool, fieldNumber proto.FieldNumber) (int, error) {
+	if idx < 0 {
+		return p.Read, errNode(meta.ErrInvalidParam, fmt.Sprintf("negative index %d", idx), nil)
+	}
 	// packed list
 	cnt := 0
 	result := p.Read
@@ -733,6 +736,9 @@ func (self *Value) findDeleteChild(path Path) (Node, int) {
 			return errNode(meta.ErrRead, "", err), -1
 		}
 
+		if idx < 0 {
+			return errNotFound, -1
+		}
 		// size = 0 maybe list in lazy load, need to check idx
 		if size > 0 && idx >= size {
 			return errNotFound, -1
